@@ -59,6 +59,12 @@ func main() {
 			if v, ok := lib.RangeAssign(); v != 5 || ok {
 				panic(fmt.Sprintf("RangeAssign %d %v", v, ok))
 			}
+			if !lib.ColdGlobals() {
+				panic("globals without initialiser were not reset")
+			}
+			if k, sum, dirty := lib.PoolAndMap(3); k != 3 || sum != 3*42+6 || dirty {
+				panic(fmt.Sprintf("PoolAndMap %d %d %v", k, sum, dirty))
+			}
 			if v := lib.InitState(); v != "42 21 7 seven 42 7" {
 				panic("InitState after cold start: " + v)
 			}
